@@ -10,8 +10,10 @@ import (
 	"fmt"
 	"math"
 	"net"
+	"runtime"
 	"strconv"
 	"strings"
+	"sync"
 	"time"
 
 	"go.minekube.com/gate/pkg/edition/java/config"
@@ -45,9 +47,12 @@ type fakeKey struct {
 	holder  uuid.UUID
 }
 
-func (k *fakeKey) Signer() *rsa.PublicKey                     { return nil }
-func (k *fakeKey) ExpiryTemporal() time.Time                  { return time.UnixMilli(k.expiry) }
-func (k *fakeKey) Expired() bool                              { return false }
+func (k *fakeKey) Signer() *rsa.PublicKey    { return nil }
+func (k *fakeKey) ExpiryTemporal() time.Time { return time.UnixMilli(k.expiry) }
+
+// Expired mirrors crypto.identifiedKey: wall clock against the expiry instant. Nothing in the forwarding
+// code may depend on it (Velocity negotiates from requested version, protocol and key revision alone).
+func (k *fakeKey) Expired() bool                              { return time.Now().After(k.ExpiryTemporal()) }
 func (k *fakeKey) Signature() []byte                          { return k.sig }
 func (k *fakeKey) SignatureValid() bool                       { return true }
 func (k *fakeKey) Salt() []byte                               { return nil }
@@ -230,6 +235,9 @@ func genProto(r *hx.Rng) proto.Protocol {
 	return proto.Protocol(hx.Pick(r, protoTable))
 }
 
+var expiryTable = []int64{-62135596800000, 0, 1, -1, 999, 1000, -1000, 1700000000000, math.MaxInt32, 1 << 40, -(1 << 40),
+	1790000000000, 1790035199999, 4102444800000, 32503680000000, 1 << 50}
+
 func genKey(r *hx.Rng, hostile bool) *fakeKey {
 	if r.Chance(1, 3) {
 		return nil
@@ -247,7 +255,9 @@ func genKey(r *hx.Rng, hostile bool) *fakeKey {
 	}
 	switch r.Intn(5) {
 	case 0:
-		k.expiry = hx.Pick(r, []int64{0, 1, -1, 999, 1000, -1000, 1700000000000, math.MaxInt32, 1 << 40, -(1 << 40)})
+		// expiry as a dimension of its own: zero time.Time, long ago, just expired (fixed instants shortly
+		// before this check was written), far future
+		k.expiry = hx.Pick(r, expiryTable)
 	case 1:
 		k.expiry = int64(r.U64()>>12) - (1 << 50) // roughly ±35k years in ms: inside time.Time's exact range
 	default:
@@ -333,6 +343,94 @@ func cfdCase(run *hx.Run, class string, secret []byte, addr string, p *fakePlaye
 		return "ok " + hx.Hex(d)
 	})
 	run.Case(class, op, out)
+}
+
+// ---------- section A': the returned payload must stay what it was ----------
+//
+// A payload is handed to mc.WritePacket after CreateForwardingData returns, while other backend logins
+// build theirs.  These probes keep the returned slice WITHOUT copying it, let other payloads be built
+// (same goroutine and another one), and only then report the bytes of the first result.  On correct code
+// the slice is the caller's own and the report is a pure function of input A.
+
+type cfdInput struct {
+	secret []byte
+	addr   string
+	p      *fakePlayer
+	req    int
+}
+
+func (c cfdInput) show() string {
+	return fmt.Sprintf("%s %s %s %d", hx.Hex(c.secret), hx.HexS(c.addr), c.p.show(), c.req)
+}
+
+func (c cfdInput) call() ([]byte, error) {
+	return verifexport.C20CreateForwardingData(c.secret, c.addr, c.p, c.req)
+}
+
+func genValidInput(r *hx.Rng) cfdInput {
+	p := genPlayer(r, false)
+	_, addr := genAddress(r, false)
+	return cfdInput{secret: genSecret(r), addr: addr, p: p, req: 1 + r.Intn(4)}
+}
+
+// aliasCase: build A, keep the slice, build B three times here and three times on another goroutine,
+// then look at A's slice again.
+func aliasCase(run *hx.Run, class string, a, b cfdInput) {
+	op := fmt.Sprintf("alias %s %s", a.show(), b.show())
+	out := hx.Guard(20*time.Second, func() string {
+		held, err := a.call()
+		if err != nil {
+			return "err"
+		}
+		for i := 0; i < 3; i++ {
+			_, _ = b.call()
+		}
+		done := make(chan struct{})
+		go func() {
+			defer close(done)
+			for i := 0; i < 3; i++ {
+				_, _ = b.call()
+			}
+		}()
+		<-done
+		return "ok " + hx.Hex(held)
+	})
+	run.Case(class, op, out)
+}
+
+// concRound: n goroutines with distinct inputs each build their payload, yield, and report what their own
+// slice holds afterwards.  Results are emitted in index order, so the trace does not depend on scheduling.
+func concRound(run *hx.Run, class string, round int, ins []cfdInput) {
+	outs := make([]string, len(ins))
+	start := make(chan struct{})
+	var wg sync.WaitGroup
+	for i := range ins {
+		wg.Add(1)
+		go func(i int) {
+			defer wg.Done()
+			defer func() {
+				if recover() != nil {
+					outs[i] = "panic"
+				}
+			}()
+			<-start
+			held, err := ins[i].call()
+			if err != nil {
+				outs[i] = "err"
+				return
+			}
+			for k := 0; k < 4; k++ {
+				runtime.Gosched()
+			}
+			time.Sleep(200 * time.Microsecond)
+			outs[i] = "ok " + hx.Hex(held)
+		}(i)
+	}
+	close(start)
+	wg.Wait()
+	for i := range ins {
+		run.Case(class, fmt.Sprintf("conc %d %d %s", round, i, ins[i].show()), outs[i])
+	}
 }
 
 // ---------- section B: the backend login handler over a fake connection ----------
@@ -655,6 +753,37 @@ func main() {
 				cfdCase(run, "cfd/fixed", []byte("secret"), "192.0.2.7", p, req)
 			}
 		}
+	}
+
+	// expiry is a dimension of its own: the negotiated version must not depend on it (nor on the clock)
+	for _, ex := range expiryTable {
+		for _, kr := range []string{"v1", "v2"} {
+			for _, pr := range []int{759, 760, 761} {
+				for req := 1; req <= 4; req++ {
+					p := base()
+					p.proto = proto.Protocol(pr)
+					p.key = &fakeKey{revName: kr, expiry: ex, pub: []byte{1, 2, 3}, sig: []byte{4, 5}, holder: p.id}
+					cfdCase(run, "cfd/expiry", []byte("secret"), "192.0.2.7", p, req)
+				}
+			}
+		}
+	}
+	// a payload stays what it was while other payloads are built (fixed pair first, then generated pairs)
+	{
+		alice, mallory := base(), base()
+		alice.name, mallory.name = "Alice", "Mallory"
+		mallory.id = uuid.UUID{0x22, 0x22, 0x22, 0x22, 0x22, 0x22, 0x22, 0x22, 0x22, 0x22, 0x22, 0x22, 0x22, 0x22, 0x22, 0x22}
+		aliasCase(run, "alias/fixed", cfdInput{[]byte("secret"), "10.0.0.1", alice, 4}, cfdInput{[]byte("secret"), "203.0.113.66", mallory, 4})
+	}
+	for i, n := 0, run.Scale(150, 2000); i < n; i++ {
+		aliasCase(run, "alias/gen", genValidInput(r), genValidInput(r))
+	}
+	for round, n := 0, run.Scale(25, 300); round < n; round++ {
+		ins := make([]cfdInput, 8)
+		for i := range ins {
+			ins[i] = genValidInput(r)
+		}
+		concRound(run, "conc", round, ins)
 	}
 
 	// ---- section A: generated payloads
